@@ -93,6 +93,49 @@ def ctor_rules(run, F):
                    where=fn.pat, key='%s constructor maps a parameter to the wrong member' % tk)
 
 
+def plan_payload_forwarding(run, F):
+    from lint import effects, cfg as cfgmod
+    E = effects.Effects(F)
+    for fn in F.find('FullControlT', 'updatePlan'):
+        calls = [(e, g) for e, g in E.call_sites(fn) if e.get('m') in ('changeWith', 'changeTo')]
+        has_with = [e for e, g in calls if e.get('m') == 'changeWith']
+        if not has_with:
+            continue      # void payload specialisation
+        c = cfgmod.cfg_of(fn)
+        ok = True
+        det = []
+        for e, g in calls:
+            args = [ir.pp(ir.strip(a)) for a in e.get('args', [])]
+            det.append((e.get('m'), args))
+            # every argument is read through the same iterator `it`
+            if not all(a.startswith(('it.', '*it.', '(*it')) or 'it.operator' in a for a in args):
+                ok = False
+            if e.get('m') == 'changeWith':
+                ok = ok and len(args) == 2 and 'destination' in args[0] and 'payload' in args[1]
+            else:
+                ok = ok and len(args) == 1 and 'destination' in args[0]
+        # changeWith only when that task's payload() is non-null
+        nodes = c.events(('call',), lambda n: n.e.get('m') in ('changeWith', 'changeTo'))
+        brs = [b for b in c.events(('branch',)) if b.e is not None and 'payload' in ir.pp(b.e)]
+        if len(brs) == 1 and len(nodes) == 2:
+            t = [s2 for s2, lab in brs[0].succ if lab == 'T'][0]
+            f = [s2 for s2, lab in brs[0].succ if lab == 'F'][0]
+            for n in nodes:
+                if n.e.get('m') == 'changeWith':
+                    ok = ok and c.dominates(t, n)
+                else:
+                    ok = ok and c.dominates(f, n)
+        else:
+            ok = False
+        run.ob('C07.d', 'updatePlan forwards the fired task\'s own destination and payload (changeWith iff it has a payload) [%s]' % F.label(), ok,
+               where=fn.pat, detail=None if ok else det, key='updatePlan forwards the wrong destination/payload')
+    for fn in F.find('PayloadPlanT', 'append'):
+        em = [e for e, g in E.call_sites(fn) if e.get('m') == 'emplace']
+        ok = len(em) == 1 and [ir.strip(a).get('pi') for a in em[0].get('args', [])] == [0, 1, 2]
+        run.ob('C07.d', 'PayloadPlanT::append stores (origin, destination, payload) in the task [%s]' % F.label(), ok, where=fn.pat,
+               key='PayloadPlanT::append does not store its payload')
+
+
 def run(run):
     cfgs = ['', 'P'] if run.tier == 'quick' else ['', 'P', 'PSHL', 'PSHVRDT']
     jobs = [('w_pay', c, v) for c in cfgs for v in facts.variants(run.tier)]
@@ -110,11 +153,15 @@ def run(run):
         facts.drop(F)
     run.floor('C07.a', 36)
     run.floor('C07.b', 20)
-    try:
-        from rules import flow_rules
-        flow_rules.c07(run)
-    except ImportError:
-        run.note('flow clause C07.c not built yet')
+    from rules import flow_rules
+    fcfgs = ['PSHL', 'PHV'] if run.tier == 'quick' else ['P', 'PH', 'PSHL', 'PHV', 'PSHVRDT', 'H']
+    flow_rules.flow_obligations(run, {'C07.c', 'C02.d', 'C11.b'}, cfgs=fcfgs)
+    for c in fcfgs:
+        for v in facts.variants(run.tier):
+            F = facts.load('w_core', c, v)
+            plan_payload_forwarding(run, F)
+            facts.drop(F)
+    run.floor('C07.c', 40)
     run.explanation = (
         'Type-level layout facts (sizeof / offsetof / alignof as computed by clang\'s record layout) for the payload '
         'storage of TransitionT<P> and TaskT<P> over 12 payload types with sizes 1..64 and alignments 1..64, the '
